@@ -46,6 +46,12 @@ func bmAttrs() map[string]ugo.Object {
 		"f":   &ugo.Function{Name: "f", Value: func(a ...ugo.Object) (ugo.Object, error) { return ugo.Int(len(a)), nil }},
 		// compound values at every position of nested containers (first and later elements)
 		"nested": ugo.Array{ugo.Map{"hits": ugo.Int(1)}, ugo.Array{ugo.Int(1)}, ugo.Map{"hits": ugo.Int(1)}, ugo.Bytes{1, 2}},
+		// sync maps: empty (non-nil), non-empty and nil-valued, also nested
+		"reg":    &ugo.SyncMap{Value: ugo.Map{}},
+		"regs":   ugo.Array{&ugo.SyncMap{Value: ugo.Map{}}, &ugo.SyncMap{Value: ugo.Map{"n": ugo.Int(1)}}},
+		"regnil": &ugo.SyncMap{},
+		"emptym": ugo.Map{},
+		"emptya": ugo.Array{},
 		"deep":   ugo.Map{"list": ugo.Array{ugo.Array{ugo.Int(1), ugo.Array{ugo.Int(1)}}, ugo.Map{"a": ugo.Map{"b": ugo.Int(1)}}}, "by": ugo.Bytes{1}},
 	}
 }
@@ -76,6 +82,11 @@ zbm.deep.list[0][0] = ZWHO
 zbm.deep.list[0][1][0] = ZWHO
 zbm.deep.list[1].a.b = ZWHO
 zbm.deep.by[0] = 9
+zold = append(zold, len(zbm.reg), len(zbm.regs[0]), zbm.regs[1].n, len(zbm.emptym), len(zbm.emptya))
+zbm.reg.k = ZWHO
+zbm.regs[0].k = ZWHO
+zbm.regs[1].n = ZWHO
+zbm.emptym.k = ZWHO
 zs := import("strings")
 zup := zs.Map(func(c) { return c + 1 }, "abc") + string(zs.IndexFunc("xxa", func(c) { return c == 'a' }))
 zerr := undefined
